@@ -44,6 +44,15 @@ DEP = {1: None, 2: "src", 3: "mid", 4: "mid"}
 NT, NO = 4, 7
 
 
+# option value codes of the model -> Python values: 3 and 4 are different settings that compare equal to 1
+PYVAL = {1: 1, 2: 2, 3: True, 4: 1.0}
+CODE_OF = {(int, 1): 1, (int, 2): 2, (bool, True): 3, (float, 1.0): 4}
+
+
+def code_of(x):
+    return CODE_OF[(type(x), x)]
+
+
 def classes_tla():
     return "ClassesDef == {" + ", ".join(
         f'[t |-> {c["t"]}, name |-> "{c["name"]}", ver |-> {c["ver"]}, def |-> {c["d"]}, uid |-> {c["uid"]}, nv |-> {c["nv"]}, '
@@ -74,7 +83,7 @@ def make_class(c, parents=None):
     if t == 1:
         def compute(self, chunk_i):
             r = np.zeros(1, H.ROWDT)
-            r["time"], r["endtime"], r["v"] = 1, 2, self.NV * 1000 + self.config[optname] * 100 + self.config[OPT[5]] * 10
+            r["time"], r["endtime"], r["v"] = 1, 2, self.NV * 1000 + code_of(self.config[optname]) * 100 + code_of(self.config[OPT[5]]) * 10
             return self.chunk(start=0, end=10, data=r)
         ns = dict(provides=("src",), depends_on=(), dtype=H.ROW, data_kind="src", compute=compute,
                   is_ready=lambda self, i: i < 1, source_finished=lambda self: True)
@@ -83,8 +92,8 @@ def make_class(c, parents=None):
             (x,) = kw.values()
             r = np.zeros(len(x), H.ROWDT)
             r["time"], r["endtime"] = x["time"], x["endtime"]
-            r["v"] = (x["v"] * 10000 + self.NV * 1000 + self.config[optname] * 100 + (self.config[OPT[5]] if shared else 0) * 10
-                      + (self.config[OPT[7]] if t == 2 else 0))
+            r["v"] = (x["v"] * 10000 + self.NV * 1000 + code_of(self.config[optname]) * 100 + (code_of(self.config[OPT[5]]) if shared else 0) * 10
+                      + (code_of(self.config[OPT[7]]) if t == 2 else 0))
             return r
         ns = dict(provides=(TYPE[t],), depends_on=(DEP[t],), dtype=H.ROW, data_kind=TYPE[t], compute=compute)
     ns["__version__"] = str(c["ver"])
@@ -134,7 +143,7 @@ def run_history(hist):
                     if code == 0:
                         st.config.pop(OPT[t], None)
                     else:
-                        st.set_config({OPT[t]: code})
+                        st.set_config({OPT[t]: PYVAL[code]})
                 elif a == "reg":
                     st.register(classes[code])
                 elif a == "new":
@@ -171,7 +180,7 @@ def job(hists):
 
 
 FUZZY_ACTIONS = ([("fz", t, on) for t in TYPE for on in (1, 0)] + [("fzo", o, on) for o in (1, 2, 3, 5, 6, 7) for on in (1, 0)])
-ACTIONS = ([("set", o, v) for o in OPT for v in (0, 1, 2)] + [("reg", c["t"], c["uid"]) for c in CLASSES]
+ACTIONS = ([("set", o, v) for o in OPT for v in ((0, 1, 2, 3, 4) if o == 2 else (0, 1, 2))] + [("reg", c["t"], c["uid"]) for c in CLASSES]
            + [("new", 0, 0)] + [("get", t, 0) for t in TYPE] + [("key", t, 0) for t in TYPE])
 
 
